@@ -510,7 +510,7 @@ def r9(ctx):
     from . import netfw
     netfw.check_accept(ctx, "C10.R9")
     netfw.check_connect(ctx, "C10.R9")
-    ctx.floor("C10.R9", 19)
+    ctx.floor("C10.R9", 23)
 
 
 def r10(ctx):
@@ -530,6 +530,12 @@ def r10(ctx):
     ctx.floor("C10.R10", 3)
 
 
+def r11(ctx):
+    """"they never panic": the replica's event fan-out runs inside the store actor while it handles a session message - a panic
+    there ends the actor (Subscribers::send / unsubscribe evaluated on subscriber lists with closed receivers, = C12.R4)"""
+    from . import C12
+    ctx.share("C10.R11", C12.r4, "C12.R4", floor=3)
+
 def run(ctx):
     ctx.run_rule("C10.R1", r1)
     ctx.run_rule("C10.R2", r2)
@@ -540,3 +546,4 @@ def run(ctx):
     ctx.run_rule("C10.R8", r8)
     ctx.run_rule("C10.R9", r9)
     ctx.run_rule("C10.R10", r10)
+    ctx.run_rule("C10.R11", r11)
